@@ -525,3 +525,21 @@ CHECKS['C18'].update(text=CHECKS['C18']['text'] + ' A condition that tests the A
 CHECKS['C07'].update(text=CHECKS['C07']['text'] + ' I12 second clause: the stop value of a ring walk with a wrapped cursor is not a parameter that '
                      'a caller passes index + 1 for without normalisation (it may equal maxslots and is then never met).')
 CHECKS['C06'].update(text=CHECKS['C06']['text'] + ' I12 (ring-walk index and stop value in range) as under C07.')
+_DIM = (' DIM1 (units of measure): a value that counts W-byte elements (a byte size divided by W > 1, propagated through copies, +/- with '
+        'counts or constants, min/conditional selections and loop bookkeeping) is not added to a byte pointer or passed as a byte length '
+        'without being multiplied back by W.')
+for _k in ('C10', 'C11', 'C17', 'C18'):
+    CHECKS[_k].update(text=CHECKS[_k]['text'] + _DIM)
+
+
+# ---- wave-13 extensions -------------------------------------------------------------------------------------------------------
+_VA = (' VA1: a va_list is consumed (v*printf family) at most once per va_start - forward typestate fresh/used over the expanded '
+       'formatting macro; the retry of the formatting loop must re-start the list.')
+for _k in ('C01', 'C05', 'C08', 'C09', 'C12', 'C15', 'C19'):
+    CHECKS[_k].update(text=CHECKS[_k]['text'] + _VA)
+CHECKS['C12'].update(text=CHECKS['C12']['text'] + ' T8 (a NULL copy of an empty value is not an allocation failure) over the tree table and the '
+                     'hash table.')
+CHECKS['C13'].update(text=CHECKS['C13']['text'] + ' B-single is reported at the public operation also when the second critical section is '
+                     'entered inside a static worker it calls.')
+CHECKS['C03'].update(text=CHECKS['C03']['text'] + ' The purging function must clear the mark and recurse into both subtrees on every path '
+                     'except the NULL-pointer exit (no "already unmarked, skip the subtree" short-cut).')
